@@ -20,6 +20,103 @@ def _structural(conds):
     return frozenset((c, pol) for c, pol in conds if not any(k in c for k in NONSTRUCTURAL))
 
 
+def _atoms(N, node, out):
+    if isinstance(node, (N.And, N.Or)):
+        _atoms(N, node.left, out)
+        _atoms(N, node.right, out)
+    elif isinstance(node, N.Not):
+        _atoms(N, node.node, out)
+    else:
+        out.append(node)
+
+
+def _num_atom(N, node):
+    """(expression string, op, int) for `E op <int>` comparisons"""
+    if isinstance(node, N.Compare) and len(node.ops) == 1 and isinstance(node.ops[0].expr, N.Const) and isinstance(node.ops[0].expr.value, int) \
+            and not isinstance(node.ops[0].expr.value, bool):
+        return xs(node.expr), node.ops[0].op, node.ops[0].expr.value
+    return None
+
+
+def _eval(N, node, val):
+    if isinstance(node, N.And):
+        return _eval(N, node.left, val) and _eval(N, node.right, val)
+    if isinstance(node, N.Or):
+        return _eval(N, node.left, val) or _eval(N, node.right, val)
+    if isinstance(node, N.Not):
+        return not _eval(N, node.node, val)
+    return val[xs(node)]
+
+
+def _compatible(N, p, q) -> bool:
+    """can the branch conditions of path p (one side) and path q (the other side) hold together?"""
+    import itertools
+    forms = []
+    keyed = {}
+    for side, path in (("a", p), ("b", q)):
+        for node, pol in path.cnodes:
+            leaves = []
+            _atoms(N, node, leaves)
+            for lf in leaves:
+                k = xs(lf)
+                free = any(x in k for x in NONSTRUCTURAL)
+                keyed.setdefault(k, {"node": lf, "free": free})
+            forms.append((node, pol))
+    keys = sorted(keyed)
+    shared = [k for k in keys if not keyed[k]["free"]]
+    if len(shared) > 14:
+        return True   # too many atoms to enumerate: assume compatible (asks for agreement on more pairs, never fewer)
+    nums = {}
+    for k in shared:
+        na = _num_atom(N, keyed[k]["node"])
+        if na is not None:
+            nums.setdefault(na[0], []).append((k, na[1], na[2]))
+    OPS = {"eq": lambda v, c: v == c, "ne": lambda v, c: v != c, "gt": lambda v, c: v > c, "gteq": lambda v, c: v >= c,
+           "lt": lambda v, c: v < c, "lteq": lambda v, c: v <= c}
+    # free atoms (alignment, endianness, ...) are unconstrained across the sides: a condition that mentions one never
+    # makes a pair incompatible, so each formula is tested with every valuation of its free atoms as well
+    free_keys = [k for k in keys if keyed[k]["free"]]
+    if len(free_keys) > 8:
+        free_keys = free_keys[:8]
+    for bits in itertools.product((False, True), repeat=len(shared)):
+        val = dict(zip(shared, bits))
+        consistent = True
+        for e, atoms in nums.items():
+            cands = set()
+            for _k, _op, c in atoms:
+                cands |= {c - 1, c, c + 1}
+            if not any(all(OPS.get(op, lambda v, c: True)(v, c) == val[k] for k, op, c in atoms) for v in cands):
+                consistent = False
+                break
+        if not consistent:
+            continue
+        for fbits in itertools.product((False, True), repeat=len(free_keys)):
+            v2 = dict(val)
+            v2.update(zip(free_keys, fbits))
+            for k in keys:
+                v2.setdefault(k, True)
+            if all(_eval(N, node, v2) == pol for node, pol in forms):
+                return True
+    return False
+
+
+def _equalities(N, p):
+    """{expression string: int} for every `E == n` the path's conditions force"""
+    out = set()
+    for node, pol in p.cnodes:
+        for lf, lp in j2front.conj_terms(node, pol):
+            na = _num_atom(N, lf)
+            if na is not None and ((na[1] == "eq" and lp) or (na[1] == "ne" and not lp)):
+                out.add((na[0], na[2]))
+    return out
+
+
+def _subst_eq(expr: str, eqs) -> str:
+    for e, v in eqs:
+        expr = expr.replace("{" + e + "}", str(v))
+    return expr
+
+
 def _adv_sig(cd, lang, p):
     text = cd.text(lang, p)
     return tuple(unplaceholder(p, e[2]) for e in events(text, lang, macro_placeholders(p)) if e[1] == "advance")
@@ -39,23 +136,39 @@ def rule_symmetry(ctx, cd):
         for kind in ("void", "boolean", "integer", "float", "fixed_length_array", "variable_length_array"):
             s_paths = cd.paths(lang, "ser", f"_serialize_{kind}")
             d_paths = cd.paths(lang, "des", f"_deserialize_{kind}")
-            s_sig, d_sig = {}, {}
-            for p in s_paths:
-                s_sig.setdefault(_structural(p.conds), set()).add(_adv_sig(cd, lang, p))
-            for p in d_paths:
-                d_sig.setdefault(_structural(p.conds), set()).add(_adv_sig(cd, lang, p))
-            keys = set(s_sig) | set(d_sig)
-            for k in sorted(keys, key=lambda x: sorted(x)):
-                n += 1
-                label = " & ".join(("" if pol else "not ") + c for c, pol in sorted(k))[-90:] or "always"
-                a, b = s_sig.get(k), d_sig.get(k)
-                if a is None or b is None:
-                    ctx.ob(R, cd.tmpl(lang, "ser" if a is None else "des").rel, f"{lang}: {kind} [{label}]: special case exists on both sides", False,
-                           f"only the {'deserializer' if a is None else 'serializer'} has this branch: the two sides lay the field out differently")
-                    continue
-                ok = a == b
-                ctx.ob(R, cd.tmpl(lang, "des").rel, f"{lang}: {kind} [{label}]: same cursor advance on both sides", ok,
-                       f"advance {sorted(a)}" if ok else f"serializer advances {sorted(a)} but deserializer advances {sorted(b)}")
+            # The two sides are compared case by case *semantically*: a serializer path and a deserializer path are about the
+            # same case when their branch conditions can hold together (propositional satisfiability over the atomic tests,
+            # with `X == n` / `X > n` read as integer constraints; alignment / endianness / signedness tests are free on
+            # each side).  How the template groups its branches (one elif per case, merged elif with inner if, inverted
+            # if/else) does not matter.
+            sig = {}
+            for side, paths in (("ser", s_paths), ("des", d_paths)):
+                for p in paths:
+                    sig[id(p)] = _adv_sig(cd, lang, p)
+            for side, paths, others in (("ser", s_paths, d_paths), ("des", d_paths, s_paths)):
+                seen_labels = set()
+                for p in paths:
+                    label = " & ".join(("" if pol else "not ") + c for c, pol in sorted(_structural(p.conds)))[-90:] or "always"
+                    if (label, sig[id(p)]) in seen_labels:
+                        continue
+                    seen_labels.add((label, sig[id(p)]))
+                    n += 1
+                    compat = [q for q in others if _compatible(cd.N, p, q)]
+                    other = "deserializer" if side == "ser" else "serializer"
+                    if not compat:
+                        ctx.ob(R, cd.tmpl(lang, side).rel, f"{lang}: {kind} {side} [{label}]: the {other} has a path for this case", False,
+                               f"no {other} path can be taken under these conditions: the two sides lay the field out differently")
+                        continue
+                    bad = []
+                    for q in compat:
+                        eqs = _equalities(cd.N, p) | _equalities(cd.N, q)
+                        a = tuple(_subst_eq(x, eqs) for x in sig[id(p)])
+                        b = tuple(_subst_eq(x, eqs) for x in sig[id(q)])
+                        if a != b:
+                            bad.append((a, b))
+                    ok = not bad
+                    ctx.ob(R, cd.tmpl(lang, "des").rel, f"{lang}: {kind} {side} [{label}]: same cursor advance as every compatible {other} path", ok,
+                           f"advance {list(sig[id(p)])}" if ok else f"this side advances {list(bad[0][0])} but the {other} advances {list(bad[0][1])} in the same case")
         # composite
         for which, mname in (("ser", "_serialize_composite"), ("des", "_deserialize_composite")):
             for p in cd.paths(lang, which, mname):
@@ -211,8 +324,8 @@ def rule_xlang(ctx, cd):
                 ctx.ob(R, t.rel, f"py {which}: delimiter header is the 32-bit aligned form pydsdl mandates", ok, f"pydsdl header bits: {bits}")
                 top = cd.ts.macro(t, "serialize" if which == "ser" else "deserialize")
                 calls = [xs(c.args[0]) for c in top.find_all(N.Call) if isinstance(c.node, N.Name) and c.node.name == pre + "integer" and c.args]
-                ok = calls == ["t.tag_field_type"]
-                ctx.ob(R, t.rel, f"py {which}: union tag is t.tag_field_type", ok, "" if ok else f"{calls}", top.lineno)
+                ok = len(calls) == 1 and re.fullmatch(r"(t|self\.inner_type|self)\.(inner_type\.)?tag_field_type", calls[0]) is not None
+                ctx.ob(R, t.rel, f"py {which}: union tag is the model's tag_field_type", ok, "" if ok else f"{calls}", top.lineno)
     # capacities from the model
     for lang in ("c", "cpp", "py"):
         for which, pre in (("ser", "_serialize_"), ("des", "_deserialize_")):
